@@ -27,6 +27,7 @@ def run(chk):
     a64common.rule_validators(chk, A)
     a64common.rule_tables(chk, A)
     a64common.rule_mem_index(chk, A)
+    a64common.rule_mem_index_mode(chk, A)
     a64common.rule_shift_class(chk, A)
     a64common.rule_sibling_checks(chk, A)
     a64common.rule_shift_lossless(chk, A)
